@@ -52,7 +52,8 @@ enum Block {
 enum Rhs {
     Blocks(Vec<Block>),
     // f_i = sum_j A_ij y_j + beta_i y_i y_{i+1} + gamma_i t y_i + delta_i sin(omega_i t) + eps_i t^2
-    Generic { a: Vec<Vec<f64>>, beta: Vec<f64>, gamma: Vec<f64>, delta: Vec<f64>, omega: Vec<f64>, eps: Vec<f64> },
+    //       + eta_i exp(kappa_i (t - tc_i))      (a forcing that switches on sharply; eta = 0 when absent)
+    Generic { a: Vec<Vec<f64>>, beta: Vec<f64>, gamma: Vec<f64>, delta: Vec<f64>, omega: Vec<f64>, eps: Vec<f64>, eta: Vec<f64>, kappa: Vec<f64>, tc: Vec<f64> },
 }
 
 fn parse_rhs(v: &Value) -> Rhs {
@@ -64,6 +65,9 @@ fn parse_rhs(v: &Value) -> Rhs {
             delta: jfv(&v["delta"]),
             omega: jfv(&v["omega"]),
             eps: jfv(&v["eps"]),
+            eta: if v["eta"].is_array() { jfv(&v["eta"]) } else { vec![0.0; v["eps"].as_array().unwrap().len()] },
+            kappa: if v["kappa"].is_array() { jfv(&v["kappa"]) } else { vec![0.0; v["eps"].as_array().unwrap().len()] },
+            tc: if v["tc"].is_array() { jfv(&v["tc"]) } else { vec![0.0; v["eps"].as_array().unwrap().len()] },
         };
     }
     let mut blocks = vec![];
@@ -120,7 +124,7 @@ fn eval_rhs(rhs: &Rhs, t: f64, y: &[C64]) -> Vec<C64> {
             }
             out
         }
-        Rhs::Generic { a, beta, gamma, delta, omega, eps } => {
+        Rhs::Generic { a, beta, gamma, delta, omega, eps, eta, kappa, tc } => {
             let d = y.len();
             (0..d)
                 .map(|i| {
@@ -131,6 +135,9 @@ fn eval_rhs(rhs: &Rhs, t: f64, y: &[C64]) -> Vec<C64> {
                     acc += y[i] * y[(i + 1) % d] * beta[i];
                     acc += y[i] * (gamma[i] * t);
                     acc += C64::new(delta[i] * (omega[i] * t).sin() + eps[i] * t * t, 0.0);
+                    if eta[i] != 0.0 {
+                        acc += C64::new(eta[i] * (kappa[i] * (t - tc[i])).exp(), 0.0);
+                    }
                     acc
                 })
                 .collect()
@@ -192,6 +199,8 @@ struct Cfg {
     tol: f64,
     y0: Vec<C64>,
     collect: bool,
+    // call with_minimum_dt before with_maximum_dt (either order must give the same solver)
+    min_first: bool,
 }
 
 /// what the builder reported before an iterator existed
@@ -213,9 +222,12 @@ macro_rules! build_adaptive {
         let dimv = $dimv;
         let y0: Vec<$n> = $cfg.y0.iter().map(|c| <$n as Scalar>::of_c(*c)).collect();
         let b = if $dyn { $ty::new_dyn($d) } else { $ty::new() };
+        let b = if $cfg.min_first {
+            b.and_then(|b| b.with_minimum_dt($cfg.dtmin)).and_then(|b| b.with_maximum_dt($cfg.dtmax))
+        } else {
+            b.and_then(|b| b.with_maximum_dt($cfg.dtmax)).and_then(|b| b.with_minimum_dt($cfg.dtmin))
+        };
         let r = b
-            .and_then(|b| b.with_maximum_dt($cfg.dtmax))
-            .and_then(|b| b.with_minimum_dt($cfg.dtmin))
             .and_then(|b| b.with_tolerance($cfg.tol))
             .and_then(|b| b.with_initial_time($cfg.t0))
             .and_then(|b| b.with_ending_time($cfg.t1))
@@ -335,6 +347,7 @@ fn run_case(case: &Value, out: &mut Out) {
         tol: jf(&case["tol"]),
         y0: jcv(&case["y0"]),
         collect: case["collect"].as_bool().unwrap_or(false),
+        min_first: case["min_first"].as_bool().unwrap_or(false),
     };
     let want_snaps = case["snaps"].as_bool().unwrap_or(false);
     let extra_next = case["extra_next"].as_i64().unwrap_or(2);
